@@ -492,7 +492,7 @@ func c18Invariants(c *Ctx, name string, g *grammar.Grammar) {
 	}
 }
 
-var c18SiteRE = regexp.MustCompile(`⟨"([^"]*)", "([^"]*)", "([^"]*)", "([^"]*)"⟩`)
+var c18SiteRE = regexp.MustCompile(`⟨"([^"]*)", "([^"]*)", "([^"]*)", "([^"]*)", "([^"]*)"⟩`)
 
 // c18Sites runs tools/factgen on the tree under test (private output file) and emits one case per site.
 func c18Sites(c *Ctx, repo, tmp string) {
@@ -536,7 +536,7 @@ func c18Sites(c *Ctx, repo, tmp string) {
 			body = body[:j]
 		}
 		for _, m := range c18SiteRE.FindAllStringSubmatch(body, -1) {
-			c.Case(fmt.Sprintf("site %s %s %s", m[1], m[2], m[3]), "covered", "site:"+m[1]+":"+m[2]+":"+m[3])
+			c.Case(fmt.Sprintf("site %s %s %s %s", m[1], m[2], m[3], m[5]), "covered", "site:"+m[1]+":"+m[2]+":"+m[3])
 			c.Count("sites-" + def)
 		}
 	}
@@ -680,7 +680,10 @@ func c18RandGrammar(r *rand.Rand, name string, findings bool) (string, []string)
 		fmt.Fprintf(&sb, "namespace = %q\nincludeGuardPrefix = \"EX_%s_\"\nfilenamePrefix = \"%s_\"\n", name, strings.ToUpper(name), name)
 	}
 	sb.WriteString("eventBased = true\n")
-	opts := []string{"tokenLine", "tokenLineOffset", "tokenColumn", "optimizeTables", "defaultReduce", "fixWhitespace", "scanBytes", "minimizeDFA"}
+	opts := []string{"tokenLine", "tokenLineOffset", "tokenColumn", "optimizeTables", "defaultReduce", "scanBytes", "minimizeDFA"}
+	if lang != "cc" {
+		opts = append(opts, "fixWhitespace")
+	}
 	if lang == "go" {
 		opts = append(opts, "eventFields", "cancellable", "recursiveLookaheads", "genSelector", "writeBison", "debugParser", "tokenStream")
 	}
